@@ -55,12 +55,12 @@ fn expected(kind: u8, model: &View, own: &ArrProps) -> View {
 
 /// A symbolic well-nested program: at each level up to two sibling frames of symbolic kind and entry
 /// API, recursing inside.
-fn level(ctxt: &ArrCtxt, other: &ArrCtxt, depth: usize, model: View) {
+fn level(ctxt: &ArrCtxt, other: &ArrCtxt, depth: usize, model: View, max_sibs: usize) {
     assert!(same_view(&ctxt.view(), &model), "ambient view is that of the innermost active frame");
     assert!(same_view(&other.view(), &[Val::None; 6]), "nothing leaks to another context instance");
     if depth == 0 { return; }
     let sibs: usize = kani::any();
-    kani::assume(sibs <= 2);
+    kani::assume(sibs <= 2 && sibs <= max_sibs);
     let mut s = 0;
     while s < 2 {
         if s < sibs {
@@ -76,7 +76,7 @@ fn level(ctxt: &ArrCtxt, other: &ArrCtxt, depth: usize, model: View) {
                 0 => {
                     {
                         let _g = frame.enter();
-                        level(ctxt, other, depth - 1, want);
+                        level(ctxt, other, depth - 1, want, max_sibs);
                     }
                     assert!(same_view(&ctxt.view(), &model), "dropping the guard restores the previous view");
                     let again: bool = kani::any();
@@ -85,9 +85,9 @@ fn level(ctxt: &ArrCtxt, other: &ArrCtxt, depth: usize, model: View) {
                         assert!(same_view(&ctxt.view(), &want), "re-entering shows the frame's properties again");
                     }
                 }
-                1 => frame.call(|| level(ctxt, other, depth - 1, want)),
+                1 => frame.call(|| level(ctxt, other, depth - 1, want, max_sibs)),
                 2 => frame.with(|cur| assert!(same_view(&cur.view(), &want), "with() exposes the frame's view")),
-                _ => { let f = frame.in_fn(|| level(ctxt, other, depth - 1, want)); f(); }
+                _ => { let f = frame.in_fn(|| level(ctxt, other, depth - 1, want, max_sibs)); f(); }
             }
             assert!(same_view(&ctxt.view(), &model), "leaving a frame restores exactly what was visible before");
         }
@@ -95,12 +95,34 @@ fn level(ctxt: &ArrCtxt, other: &ArrCtxt, depth: usize, model: View) {
     }
 }
 
+/// two nested levels, one frame per level (plus optional re-entry)
 #[kani::proof]
 #[kani::unwind(13)]
-pub fn c03_q_nested_frames_depth2() {
+pub fn c03_q_nested_frames_chain2() {
     let ctxt = ArrCtxt::new();
     let other = ArrCtxt::new();
-    level(&ctxt, &other, 2, [Val::None; 6]);
+    level(&ctxt, &other, 2, [Val::None; 6], 1);
+    assert!(ctxt.enters.get() == ctxt.exits.get(), "every enter is matched by an exit");
+    kani::cover!(ctxt.enters.get() >= 2, "two nested frames entered");
+}
+
+/// one level, up to two sibling frames one after the other
+#[kani::proof]
+#[kani::unwind(13)]
+pub fn c03_q_sibling_frames() {
+    let ctxt = ArrCtxt::new();
+    let other = ArrCtxt::new();
+    level(&ctxt, &other, 1, [Val::None; 6], 2);
+    assert!(ctxt.enters.get() == ctxt.exits.get(), "every enter is matched by an exit");
+    kani::cover!(ctxt.enters.get() >= 2, "two sibling frames entered");
+}
+
+#[kani::proof]
+#[kani::unwind(13)]
+pub fn c03_t_nested_frames_depth2() {
+    let ctxt = ArrCtxt::new();
+    let other = ArrCtxt::new();
+    level(&ctxt, &other, 2, [Val::None; 6], 2);
     assert!(ctxt.enters.get() == ctxt.exits.get(), "every enter is matched by an exit");
     kani::cover!(ctxt.enters.get() >= 3, "three frames entered");
 }
@@ -110,8 +132,8 @@ pub fn c03_q_nested_frames_depth2() {
 pub fn c03_t_nested_frames_depth3() {
     let ctxt = ArrCtxt::new();
     let other = ArrCtxt::new();
-    level(&ctxt, &other, 3, [Val::None; 6]);
-    kani::cover!(ctxt.enters.get() >= 4, "four frames entered");
+    level(&ctxt, &other, 3, [Val::None; 6], 1);
+    kani::cover!(ctxt.enters.get() >= 3, "three nested frames entered");
 }
 
 // ---- futures ---------------------------------------------------------------------------------
